@@ -62,18 +62,6 @@ def world_ref_kind(body):
     return None
 
 
-def _strip_cell(body, t):
-    """Strip wrappers between a cell lookup and its consumer."""
-    while isinstance(t, tuple) and t:
-        if t[0] in ("variant", "cast"):
-            t = t[1] if t[0] == "variant" else t[2]
-        elif t[0] == "field" and (not t[3] or not t[3].startswith("shred::")):
-            t = t[1]
-        elif t[0] == "call" and S.callee_at(body, t[1]).name in ("branch", "unwrap", "expect", "as_ref", "deref") and t[2]:
-            t = t[2][0]
-        else:
-            break
-    return t
 
 
 def _cell_uses(ev, ends, cell_pred):
@@ -299,45 +287,6 @@ def _fnref_paths(body):
     return out
 
 
-def _cell_consumers(prog, body, src_bb):
-    """Names of the calls that directly receive the value produced by the call at src_bb
-    (looking through Try::branch / variant projections and Option::map closures)."""
-    bt = prog.bt(body)
-    out = []
-    for bb, t in body.normal_calls():
-        if bb == src_bb:
-            continue
-        c = Callee(t["func"])
-        args = bt.call_args(bb)
-        for i, a in enumerate(args):
-            base = _strip_cell(body, a)
-            if isinstance(base, tuple) and base[:2] == ("call", src_bb):
-                if c.name in ("branch",):
-                    continue  # looked through by _strip_cell at the real consumer
-                if c.name in ("map", "and_then") and len(args) == 2 and i == 0:
-                    clo = None
-                    for s_ in subterms(args[1]):
-                        if s_[0] == "agg" and s_[1] == "closure":
-                            clo = s_[2]
-                        elif s_[0] == "closure":
-                            clo = s_[1]
-                    if clo and clo in prog.facts.bodies:
-                        cb = prog.facts.bodies[clo]
-                        cbt = prog.bt(cb)
-                        for bb2, t2 in cb.normal_calls():
-                            for a2 in cbt.call_args(bb2):
-                                if _strip_cell(cb, a2) == ("param", 2):
-                                    out.append((Callee(t2["func"]).name, cb.loc(bb2)))
-                        continue
-                    fn = [s_ for s_ in subterms(args[1]) if s_[0] == "fnref"]
-                    if fn:
-                        out.append((fn[0][2], body.loc(bb)))
-                        continue
-                out.append((c.name, body.loc(bb)))
-    ret = bt.local(0)
-    if isinstance(_strip_cell(body, ret), tuple) and _strip_cell(body, ret)[:2] == ("call", src_bb):
-        out.append(("<return>", body.loc()))
-    return out
 
 
 def _deep(events):
@@ -478,38 +427,10 @@ def outcome(ctx, report, rule, facts, config):
                   "%s does not turn an absent resource into a panic: %s" % (name, "; ".join(sorted(set(problems)))), site=b.loc(), config=config)
 
 
-NORMALISE = [("try_borrow_mut", "try_borrow*"), ("try_borrow", "try_borrow*"), ("borrow_mut", "borrow*"), ("borrow", "borrow*"),
-             ("FetchMut", "Fetch*"), ("Fetch", "Fetch*"), ("AtomicRefMut", "AtomicRef*"), ("AtomicRef", "AtomicRef*"),
-             ("as_mut", "as_*"), ("as_ref", "as_*"), ("BorrowMutError", "Borrow*Error"), ("BorrowError", "Borrow*Error"),
-             ("try_fetch_mut", "try_fetch*"), ("try_fetch", "try_fetch*"), ("&mut ", "&"), ("*mut ", "*"), ("*const ", "*"),
-             ("from_raw_parts_mut", "from_raw_parts*"), ("from_raw_parts", "from_raw_parts*"), ("cast_mut", "cast*"), ("get_mut", "get*")]
 
 
-SEMANTIC_CALLS = set(["get", "get*", "contains_key", "try_borrow*", "borrow*",
-                      "assert_same_type_id", "from_type_id", "try_fetch_internal", "try_fetch*", "index", "index_mut", "downcast_ref_unchecked",
-                      "downcast_mut_unchecked", "deref", "deref_mut", "<fn pointer>", "from_raw_parts*", "clone"])
 
 
-def skeleton(body, recursive_facts=None):
-    """Sequence of the *semantic* calls of a body (lookups, borrows, guard mapping, panics,
-    vtable re-attachment) with shared/exclusive names unified.  Calls outside that vocabulary
-    are ignored, so that a behaviour-preserving extra call does not break a sibling comparison."""
-    out = []
-    for bb, t in body.normal_calls():
-        c = Callee(t["func"])
-        s_ = "<fn pointer>" if c.indirect else (c.name or "?")
-        for a, b_ in NORMALISE:
-            if s_ == a:
-                s_ = b_
-                break
-        if s_ == "new" and c.self_head == A.RESID:
-            s_ = "ResourceId::new"
-        elif s_ not in SEMANTIC_CALLS:
-            continue
-        if s_ in ("deref", "deref_mut", "clone") and c.local is False and "AtomicRef" not in c.inst_path:
-            continue
-        out.append(s_)
-    return out
 
 
 SHARED_OF = [("try_borrow_mut", "try_borrow"), ("borrow_mut", "borrow"), ("FetchMut", "Fetch"), ("AtomicRefMut", "AtomicRef"), ("as_mut", "as_ref"),
